@@ -4,6 +4,7 @@
 package main
 
 import (
+	"reflect"
 	"fmt"
 	"math"
 	"strings"
@@ -242,14 +243,50 @@ func dictOp(cur *value.HashMap, op obj) (obj, *value.HashMap) {
 	return res, next
 }
 
+// the collections an earlier "copy" operation duplicated: a copy is an independent value, so nothing done to the copy
+// (or to a copy of the copy) may change what they hold or how they are displayed
+type shadow struct {
+	e    r.Element
+	dump interface{}
+	text interface{}
+}
+
+func dumpOf(e r.Element) (out interface{}) {
+	defer func() {
+		if p := recover(); p != nil {
+			out = fmt.Sprintf("panic: %v", p)
+		}
+	}()
+	return hlib.DumpValue(e, 0)
+}
+
+func newShadow(e r.Element) shadow { return shadow{e, dumpOf(e), textOf(e)} }
+
+// checkShadows replaces the step's result by a "crash" record when an original changed under an operation on its copy
+func checkShadows(shs []shadow, res obj) obj {
+	for i, sh := range shs {
+		if !reflect.DeepEqual(dumpOf(sh.e), sh.dump) || !reflect.DeepEqual(textOf(sh.e), sh.text) {
+			return obj{"kind": "crash", "panic": fmt.Sprintf("the collection copied by copy operation #%d changed under an operation on its copy: was %v, is %v",
+				i+1, sh.text, textOf(sh.e)), "alias": true}
+		}
+	}
+	return res
+}
+
 var commands = map[string]hlib.Handler{
 	// {"init":[val...], "ops":[op...]}
 	"list": func(in map[string]interface{}) map[string]interface{} {
 		cur := value.NewArray(elemsOf(in["init"]))
 		steps := []interface{}{}
+		shs := []shadow{}
 		for _, o := range in["ops"].([]interface{}) {
 			var res obj
+			prev := cur
 			res, cur = listOp(cur, o.(map[string]interface{}))
+			if o.(map[string]interface{})["op"] == "copy" && cur != prev {
+				shs = append(shs, newShadow(prev))
+			}
+			res = checkShadows(shs, res)
 			steps = append(steps, obj{"r": res, "state": hlib.DumpValue(cur, 0), "text": textOf(cur)})
 		}
 		return obj{"steps": steps}
@@ -259,9 +296,15 @@ var commands = map[string]hlib.Handler{
 		cur := value.NewHashMap(pairsOf(in["init"]))
 		steps := []interface{}{}
 		first := obj{"state": hlib.DumpValue(cur, 0), "text": textOf(cur)}
+		shs := []shadow{}
 		for _, o := range in["ops"].([]interface{}) {
 			var res obj
+			prev := cur
 			res, cur = dictOp(cur, o.(map[string]interface{}))
+			if o.(map[string]interface{})["op"] == "copy" && cur != prev {
+				shs = append(shs, newShadow(prev))
+			}
+			res = checkShadows(shs, res)
 			steps = append(steps, obj{"r": res, "state": hlib.DumpValue(cur, 0), "text": textOf(cur)})
 		}
 		return obj{"init": first, "steps": steps}
